@@ -225,6 +225,28 @@ func (k *Key) PGPEntity() *openpgp.Entity {
 		PrivateKey: k.private,
 		Identities: map[string]*openpgp.Identity{},
 	}
+	if k.private == nil {
+		// Public key only (for example a key read from git): there is nothing to create a
+		// self-signature with. To check a signature, OpenPGP only needs an identity telling
+		// that this key is allowed to sign.
+		uid := packet.NewUserId("name", "", "")
+		isPrimaryId := true
+		e.Identities[uid.Id] = &openpgp.Identity{
+			Name:   uid.Id,
+			UserId: uid,
+			SelfSignature: &packet.Signature{
+				SigType:      packet.SigTypePositiveCert,
+				PubKeyAlgo:   k.public.PubKeyAlgo,
+				CreationTime: k.public.CreationTime,
+				IssuerKeyId:  &k.public.KeyId,
+				IsPrimaryId:  &isPrimaryId,
+				FlagsValid:   true,
+				FlagSign:     true,
+				FlagCertify:  true,
+			},
+		}
+		return e
+	}
 	// somehow initialize the proper fields with identity, self-signature ...
 	err := e.AddUserId("name", "", "", nil)
 	if err != nil {
